@@ -1,5 +1,6 @@
 import SqlgrepModel.Model.ParseLit
 import SqlgrepModel.Model.Json
+import SqlgrepModel.Model.DecFloat
 /-
 Line → row extraction: `TableDefinition::extract`, `ParsingInput::new`, `ColumnParsing::extract`,
 `extract_using_regex`, `Row::any_result` (`src/data_model.rs`), `ValueType::parse` (`src/model.rs`).
@@ -8,7 +9,7 @@ External facts enter as oracles, for *all* of which the theorems are stated:
 * `LineOracle.captures re` / `split re`: the answer of `Regex::captures(line)` / `Regex::split(line)` for the
   regular expression with source text `re` (optional group texts, group 0 = whole match / field list);
 * `LineOracle.json`: `serde_json::from_str(line)` (`none` = not JSON);
-* `Oracles.parseF64`: `f64::from_str` (bits).
+* `Oracles.parseF64`: `f64::from_str` (bits); `Oracles.computed` is the instance computed by `Model/DecFloat.lean`.
 -/
 namespace Sqlgrep
 namespace Extract
@@ -69,6 +70,14 @@ def Column.defaultValue (c : Column) : Value := c.options.default.getD .null
 /-- line-independent oracles -/
 structure Oracles where
   parseF64 : Text → Option Nat
+
+/-- the oracle-free instance: `f64::from_str` as computed by `Model/DecFloat.lean` -/
+def Oracles.computed : Oracles := { parseF64 := DecFloat.parseF64N }
+
+/-- what the drivers run: a shipped `f64::from_str` fact where the case has one (the facts are a cross-check of the
+Lean function against the real one), the computed answer for every other text -/
+def Oracles.withFacts (tbl : List (Text × Option Nat)) : Oracles :=
+  { parseF64 := fun t => match tbl.lookup t with | some r => r | none => DecFloat.parseF64N t }
 
 /-- what the external libraries say about one line -/
 structure LineOracle where
